@@ -130,6 +130,10 @@ func Encode(data []byte, minECCPercent int, userSpecifiedLayers int) (barcode.Ba
 // Encode returns an aztec barcode with the given content and color scheme
 func EncodeWithColor(data []byte, minECCPercent int, userSpecifiedLayers int, color barcode.ColorScheme) (barcode.Barcode, error) {
 	bits := highlevelEncode(data)
+	if bits.Len() > 0 && minECCPercent > 100*totalBitsInLayer(max_nb_bits, false) {
+		// more check bits than the largest symbol has room for; also keeps bits*percent from overflowing
+		return nil, fmt.Errorf("Data too large for an aztec code")
+	}
 	eccBits := ((bits.Len() * minECCPercent) / 100) + 11
 	totalSizeBits := bits.Len() + eccBits
 	var layers, TotalBitsInLayer, wordSize int
